@@ -143,6 +143,10 @@ def c01(proj, rep, tier):
     rep.floor('W5 Gram-matrix orthonormalisations', n, 4)
     n = numeric.f4(proj, rep, MANIFOLD)
     rep.floor('F4 hand-written softplus sites', n, 1)
+    n = manifold.w6(proj, rep, ['numqi.manifold._compose.QuantumChannel.forward'])
+    rep.floor('W6 batched / unbatched einsum pairs', n, 1)
+    n = kdefects.k5(proj, rep, MANIFOLD if tier == 'quick' else sorted(proj.modules))
+    rep.floor('K5 eigsh calls in the manifold modules', n, 1)
     n = shapes.sh2(proj, rep)
     rep.floor('SH2 Euler-recursion reshape sites with an exact width function', n, 4)
     rep.assume('membership itself (unit norm, PSD, X^dagger X = I, simplex, interval) for all theta is value-level: not decided; '
@@ -236,6 +240,12 @@ def c03(proj, rep, tier):
     rep.floor('R1 leg-relabelling contractions', n, 7)
     n = circuit.d5(proj, rep)
     rep.floor('D5 target-order assignments in the Circuit builders', n, 5)
+    n = ownership.pu1(proj, rep, ['numqi.sim.state', 'numqi.sim.dm'] if tier == 'quick' else sorted(proj.modules))
+    rep.floor('PU1 simulator primitives with in-place stores', n, 3)
+    n = typestate.h5(proj, rep, ['numqi.sim.circuit.Circuit'])
+    rep.floor('H5 query methods of Circuit', n, 5)
+    n = adjoint.ip1(proj, rep)
+    rep.floor('IP1 factor order of inner_product_psi0_O_psi1', n, 1)
     backend.b1(proj, rep, ['numqi.gate._internal'], expect_match=B1_GATE)
     n = ownership.o2(proj, rep)
     rep.floor('O2 cached functions examined', n, 20)
